@@ -336,6 +336,32 @@ func genDQ(r *lib.Run, rng *lib.Rand) {
 	}
 }
 
+// genDQExhaustive: every question body of 1..maxLen bytes over a small alphabet (root, label lengths 1 and 2,
+// reserved bits, pointer marker, pointer targets 12..15 = the body itself, a letter), followed by type/class:
+// every label / pointer / loop / truncation layout of that size.
+func genDQExhaustive(r *lib.Run, maxLen int) {
+	alphabet := []byte{0x00, 0x01, 0x02, 0x40, 0xc0, 0x0c, 0x0d, 0x0e, 0x0f, 0x61}
+	hdr := []byte{0x12, 0x34, 0x01, 0x00, 0x00, 0x01, 0, 0, 0, 0, 0, 0}
+	tail := []byte{0x00, 0x01, 0x00, 0x01}
+	body := make([]byte, maxLen)
+	var rec func(pos, n int)
+	rec = func(pos, n int) {
+		if pos == n {
+			msg := append(append(append([]byte{}, hdr...), body[:n]...), tail...)
+			r.Do("dq", lib.Hex(msg), "-", "12", "-", "64")
+			return
+		}
+		for _, c := range alphabet {
+			body[pos] = c
+			rec(pos+1, n)
+		}
+	}
+	for n := 1; n <= maxLen; n++ {
+		rec(0, n)
+	}
+	r.Stat("class.dq.exhaustive-maxlen", int64(maxLen))
+}
+
 // ---------------------------------------------------------------- merges
 
 var strU = []string{"-", "-", "61", "62", "686f737431", "4170706c65"}
